@@ -357,6 +357,18 @@ void stream_ops(Enumerator &E) {
         for (uint32_t sz2 : {0u, 300u}) { Builder b; uint32_t d = b.ss(sz2); uint32_t s = b.ss(sz); Op o; o.kind = SS_MOVE_ASSIGN; o.a = d; o.b = s; size_t ts = b.target(o);
             E.cell(nm("ss_move_assign", "", "dst=" + std::to_string(sz2) + ",src=" + std::to_string(sz)), b, ts); }
     }
+    // a stream that has grown to the heap and was then emptied completely (truncate() / erase(everything)): capacity and block stay, size is 0
+    for (uint32_t sz : {300u, 1500u})
+        for (unsigned how = 0; how < 2; how++)
+            for (uint32_t add : {1u, 700u, 3000u})
+                for (unsigned form = 0; form < 3; form++) {
+                    Builder b; uint32_t s = b.ss(sz);
+                    { Op e; e.kind = how ? SS_ERASE : SS_TRUNCATE; e.a = s; e.b = how ? 1004 : 0; b.p.ops.push_back(e); }
+                    Op o; o.a = s;
+                    if (form == 0) { o.kind = SS_APPEND; o.b = SRC; o.c = add; } else if (form == 1) { o.kind = SS_APPEND_CHAR; o.b = 3; o.c = add; } else { o.kind = SS_SHL_TEXT; o.b = 0; o.c = add; o.d = 2; }
+                    size_t ts = b.target(o);
+                    E.cell(nm(form == 0 ? "ss_append" : form == 1 ? "ss_append_char" : "ss_shl_text", how ? "after_erase_all" : "after_truncate", "grown_to=" + std::to_string(sz) + ",add=" + std::to_string(add)), b, ts);
+                }
     { Builder b; Op o; o.kind = SS_NEW; size_t ts = b.target(o); E.cell(nm("ss_new", "", ""), b, ts); }
 }
 
